@@ -24,7 +24,7 @@ REQUIREMENTS
    These ideas were used in earlier rounds: do NOT reuse them or close variants, find a different clause of the statement, a different code site or a different trigger:
 {chr(10).join(prev) if prev else '   (none)'}
 2. The full existing suite must still pass. Run exactly: cd /tmp/wt-{i} && PYTHONPATH=/tmp/wt-{i}/src /venv/bin/python -m pytest -q -p no:cacheprovider tests   (the PYTHONPATH matters: without it the tests import a different copy of the library). It takes about 15 s; 111 tests must pass.
-3. Write a demonstration script /tmp/wt-{i}/demo_{i}.py (plain Python, uses only the library's public API; prints what it observed; exits with code 1 when the property is violated and 0 otherwise). It must exit 1 with your change and exit 0 on the unmodified tree: verify both (use `git stash` / `git stash pop` inside the worktree to test the unmodified tree). Run it as: cd /tmp/wt-{i} && PYTHONPATH=/tmp/wt-{i}/src /venv/bin/python demo_{i}.py . If your demo uses the simulator, always call simulator.cleanup() in a finally block (its worker thread is non-daemon and would keep the interpreter alive) and never rely on wall-clock sleeps for the verdict.
+3. Write a demonstration script /tmp/wt-{i}/demo_{i}.py (plain Python, uses only the library's public API; prints what it observed; exits with code 1 when the property is violated and 0 otherwise). It must exit 1 with your change and exit 0 on the unmodified tree: verify both (to test the unmodified tree do NOT use `git stash` - the stash is shared with other worktrees of this repository and other people work in those at the same time; instead save your change with `git -C /tmp/wt-{i} diff -- src > /tmp/wt-{i}/patch.diff`, undo it with `git -C /tmp/wt-{i} apply -R /tmp/wt-{i}/patch.diff`, run the demo, and re-apply it with `git -C /tmp/wt-{i} apply /tmp/wt-{i}/patch.diff`). Run it as: cd /tmp/wt-{i} && PYTHONPATH=/tmp/wt-{i}/src /venv/bin/python demo_{i}.py . If your demo uses the simulator, always call simulator.cleanup() in a finally block (its worker thread is non-daemon and would keep the interpreter alive) and never rely on wall-clock sleeps for the verdict.
 4. The source files use CRLF line endings: preserve them (e.g. edit with a small Python script that reads and writes bytes, replacing b'...\\r\\n' sequences), so that `git diff` shows only your intended lines. Do not touch tests/.
 5. When done, save the patch: git -C /tmp/wt-{i} diff -- src > /tmp/wt-{i}/patch.diff  (leave the change applied in the worktree).
 
